@@ -385,3 +385,24 @@ contract(F03 + "Suffix.match", types=dict(string="str"), returns="tuple[ref:Base
             "rule_text(nonnull(result)[0]) == string[string.rfind('(') + 1:-1].strip() and rule_text(nonnull(result)[0]) != '' and " + _SB + "[-6:].upper() == 'RESULT' and "
             "nonnull(result)[1] is not None and rule_text(nonnull(nonnull(result)[1])) == " + _SB + "[:-6].rstrip() and " + _SB + "[:-6].rstrip() != '')",
     }, raises={"*": {}}, serves=["C02"])
+
+# Include_Stmt.match - an INCLUDE line that the reader did not resolve: the file name is the text between the quotes,
+# unchanged (C13: unresolved includes are kept as they are)
+_INC = "string.strip()[7:].strip()"
+contract(F03 + "Include_Stmt.match", types=dict(string="str"), returns="tuple[ref:Base]?", modifies=["rule_evals"],
+    calls={"Include_Filename": "proto:operand_rule", "InternalError": "pure:any"},
+    ensures={
+        "keyword_leads": "implies(result is not None, string.strip()[:7].upper() == 'INCLUDE')",
+        "name_in_matching_quotes": "implies(result is not None, len(" + _INC + ") >= 3 and " + _INC + "[0] == " + _INC + "[-1] and (" + _INC + "[0] == \"'\" or " + _INC + "[0] == '\"'))",
+        "file_name_is_the_text_between_the_quotes": "implies(result is not None, rule_text(nonnull(result)[0]) == " + _INC + "[1:-1])",
+    }, raises={"*": {}}, serves=["C02", "C13"])
+
+contract(F03 + "Data_Stmt.tostr", types=dict(self="Base"), returns="str",
+    ensures={"every_set_in_order": "squeeze(result) == squeeze('DATA ' + ', '.join([str(x) for x in self.items]))"},
+    raises=[], serves=["C01", "C02"])
+
+contract(F03 + "Length_Selector.tostr", types=dict(self="Base"), returns="str",
+    requires={"item_count": "len(self.items) == 2 or len(self.items) == 3"},
+    ensures={"every_part_is_printed": "squeeze(result) == squeeze(str(self.items[0]) + str(self.items[1]) if len(self.items) == 2 else "
+                                      "str(self.items[0]) + 'LEN = ' + str(self.items[1]) + str(self.items[2]))"},
+    raises=[], serves=["C01", "C02"])
